@@ -58,6 +58,9 @@ def from_source(fl: Flow, e, roots, as_iter=False, _depth=0, _seen=None):
             hit = from_source(fl, o.value, roots, False, _depth + 1, seen)
         elif isinstance(o, ast.Starred):
             hit = from_source(fl, o.value, roots, as_iter, _depth + 1, seen)
+        elif isinstance(o, (ast.ListComp, ast.SetComp, ast.GeneratorExp)) and as_iter:
+            # a new container / stream of elements taken from the source: (child for child in self.children if ..)
+            hit = from_source(fl, o.elt, roots, False, _depth + 1, seen)
         elif isinstance(o, ast.Call):
             nm = call_name(o)
             if isinstance(o.func, ast.Attribute) and nm in ALIASING_METHODS and not _copies(o):
@@ -87,11 +90,18 @@ def _written_objects(node):
                 yield n.args[0], n, f"np.{nm}(...) writes into it"
 
 
+FAMILY_CALLS = ("copy", "copy_to_parent", "copy_from_extent", "_super_copy")
+
+
 def copy_functions(ctx):
     """[(FuncInfo, names of the parameters that stand for the source)] — every method of the entity family (and of the workspace) that
-    takes part in copying: named copy / copy_* / *_copy."""
+    takes part in copying: named copy / copy_* / *_copy, plus the HOOKS they delegate a step to: a method called on self that the
+    normaliser could not expand (it is overridable: template method) and that is handed the copy in the making — with every override
+    of it.  A hook's parameter stands for the source when the argument it receives does (the list of the source's children ...)."""
+    if "c12.family" in ctx.cache:
+        return ctx.cache["c12.family"]
     p = ctx.p
-    out, seen = [], set()
+    out, seen = [], {}
     for K in p.subclasses(p.cls("Entity")):
         for c in K.mro:
             if isinstance(c, str):
@@ -100,14 +110,50 @@ def copy_functions(ctx):
                 if fn in seen or fn.self_name is None or fn.kind != "method":
                     continue
                 if fn.name == "copy" or fn.name.startswith("copy_") or fn.name.endswith("_copy"):
-                    seen.add(fn)
-                    out.append((fn, {fn.self_name}))
+                    seen[fn] = {fn.self_name}
+                    out.append((fn, seen[fn]))
+    named = len(out)
     ws = p.cls("Workspace")
     for name, idx in (("copy_to_parent", 1), ("copy_property_groups", 2)):
         fn = ws.methods.get(name)
         if fn is None or len(fn.params) <= idx:
             raise AnalysisError(f"Workspace.{name}: not found (or its source parameter moved)")
         out.append((fn, {fn.params[idx]}))
+    ctx.cache["c12.family"] = out  # (visible to re-entrant calls while the hooks are collected)
+    from .c12 import _flow
+
+    work = list(out[:named])
+    while work:
+        fn, roots = work.pop()
+        v, fl = _flow(ctx, fn)
+        made = {id(c) for c in ast.walk(v.node) if isinstance(c, ast.Call) and call_name(c) in FAMILY_CALLS}
+        for c in ast.walk(v.node):
+            if not (isinstance(c, ast.Call) and isinstance(c.func, ast.Attribute) and isinstance(c.func.value, ast.Name) and c.func.value.id == fn.self_name):
+                continue
+            nm = c.func.attr
+            if nm.startswith("__") or nm in FAMILY_CALLS or any(isinstance(a, ast.Starred) for a in c.args):
+                continue
+            args = list(c.args) + [k.value for k in c.keywords]
+            if not any(id(o) in made for a in args for o in fl.origins(a)):
+                continue  # not handed the new entity: not a step of the copy
+            m = fn.cls.lookup(nm)
+            if not m or m[1] != "method":
+                continue
+            targets = [m[2]] + [sub.methods[nm] for sub in p.subclasses(fn.cls, strict=True) if nm in sub.methods]
+            for t in targets:
+                if t.self_name is None:
+                    continue
+                prm = t.params[1:]
+                bound = dict(zip(prm, c.args))
+                bound.update({k.arg: k.value for k in c.keywords if k.arg in prm})
+                troots = {t.self_name} | {name for name, a in bound.items() if from_source(fl, a, roots, as_iter=True) is not None}
+                if t not in seen:
+                    seen[t] = set(troots)
+                    out.append((t, seen[t]))
+                    work.append((t, seen[t]))
+                elif troots - seen[t]:
+                    seen[t] |= troots
+                    work.append((t, seen[t]))
     return out
 
 
